@@ -432,3 +432,68 @@ Definition focus_of (expect : list sx) : bytes :=
 Definition focus_oracle (expect : list sx) (evs dels : list event) : list bytes :=
   if forallb (expectation_ok evs dels) expect then []
   else [focus_of expect].
+
+(* ---------- reply syntax on the wire (C04) and known finding F22 ---------- *)
+
+Definition text_octet_ok (c : ascii) : bool := Ascii.eqb c HT || in_range 32 126 c.
+
+(* a reply line: three digits, SP or '-', printable text (a bare "ddd" is also a reply) *)
+Definition wire_line_ok (l : bytes) : bool :=
+  match l with
+  | a :: b :: c :: rest =>
+      is_digit a && is_digit b && is_digit c &&
+      match rest with
+      | [] => true
+      | d :: t => (Ascii.eqb d " " || Ascii.eqb d "-") && forallb text_octet_ok t
+      end
+  | _ => false
+  end.
+
+(* the reply texts that echo octets chosen by the client (F22) *)
+Definition echo_line (l : bytes) : bool :=
+  let t := skipn 4 l in
+  is_prefix (bs "Hello ") t
+  || is_prefix (bs "2.0.0 Hello ") t
+  || is_prefix (bs "5.5.2 Syntax errors, ") t
+  || is_prefix (bs "2.0.0 Roger, accepting mail from <") t
+  || is_prefix (bs "2.0.0 I'll make sure <") t
+  || (match skipn 6 t with "<" :: _ => true | _ => false end)   (* LMTP: "d.d.d <rcpt> ..." *)
+  || (match skipn 5 t with " " :: "<" :: _ => true | _ => false end).
+
+Definition bad_lines (wire : bytes) : list bytes :=
+  filter (fun l => negb (wire_line_ok l)) (wire_lines wire).
+
+(* C04 syntax oracle: (violations, known-finding tags) *)
+Definition oracle_syntax (backend_texts_printable : bool) (evs : list event) : list bytes * list bytes :=
+  let bad := bad_lines (all_wire evs) in
+  match bad with
+  | [] => ([], [])
+  | _ =>
+      if forallb (fun l => wire_line_ok (firstn 4 l) && echo_line l) bad then ([bs "C04"], [bs "F22"])
+      else if backend_texts_printable then ([bs "C04"], [])
+      else ([], [])   (* a scripted backend error text is not printable: outside the property's hypothesis *)
+  end.
+
+(* ---------- known finding F6: the line limiter sees pipelined BDAT payload ---------- *)
+
+Fixpoint longest_run (s : bytes) (cur best : nat) : nat :=
+  match s with
+  | [] => Nat.max cur best
+  | c :: t => if Ascii.eqb c LF then longest_run t 0 (Nat.max cur best) else longest_run t (S cur) best
+  end.
+
+(* a raw read holds a BDAT command line followed, in the same raw read, by an
+   LF-free run longer than the line limit *)
+Definition f6_chunk (limit : N) (d : bytes) : bool :=
+  (0 <? limit)%N &&
+  (fix go (ls : list bytes) : bool :=
+     match ls with
+     | [] => false
+     | l :: r =>
+         (is_prefix (bs "BDAT ") (to_upper l)
+          && (limit <? N.of_nat (longest_run (join [LF] r) 0 0))%N)
+         || go r
+     end) (split_byte LF d).
+
+Definition f6_signature (limit : N) (phases : list (list raw)) : bool :=
+  existsb (existsb (fun r => match r with RData c d => f6_chunk limit (c :: d) | RFail _ => false end)) phases.
